@@ -71,10 +71,15 @@ func (repoImporter) Import(path string) (p *types.Package, err error) {
 			}
 		}
 	}
+	if extRealOn && transExtReal[path] {
+		if pi := loadExt(path); pi != nil && pi.pkg != nil {
+			return pi.pkg, nil
+		}
+	}
 	if c, ok := stdCache[path]; ok {
 		return c, nil
 	}
-	if stdWanted[path] {
+	if stdWanted[path] || (extRealOn && transStd[path]) {
 		func() {
 			defer func() {
 				if recover() != nil {
@@ -120,15 +125,42 @@ func verifOnly(f *ast.File) bool {
 	return false
 }
 
+// loadExt type-checks a whitelisted external package from the module cache
+// (only while the translator runs; see trans.go).
+func loadExt(path string) *pkgInfo {
+	key := "ext:" + path
+	if pi, ok := pkgCache[key]; ok {
+		return pi
+	}
+	if pkgActive[key] {
+		return nil
+	}
+	dir := modCacheDir(path)
+	if dir == "" {
+		return nil
+	}
+	if st, err := os.Stat(dir); err != nil || !st.IsDir() {
+		return nil
+	}
+	return loadPkgDir(key, dir, path)
+}
+
 // loadPkg parses and type-checks the package in repo/rel (non-test files).
 // It returns nil (after fail) when the directory cannot be read.
 func loadPkg(rel string) *pkgInfo {
 	if pi, ok := pkgCache[rel]; ok {
 		return pi
 	}
+	path := modPath
+	if rel != "" {
+		path += "/" + filepath.ToSlash(rel)
+	}
+	return loadPkgDir(rel, filepath.Join(repo, rel), path)
+}
+
+func loadPkgDir(rel, dir, path string) *pkgInfo {
 	pkgActive[rel] = true
 	defer delete(pkgActive, rel)
-	dir := filepath.Join(repo, rel)
 	ents, err := os.ReadDir(dir)
 	if err != nil {
 		fail("cannot read package directory %s: %v", rel, err)
@@ -171,10 +203,6 @@ func loadPkg(rel string) *pkgInfo {
 		Selections: map[*ast.SelectorExpr]*types.Selection{},
 	}
 	conf := types.Config{Importer: repoImporter{}, Error: func(error) {}, FakeImportC: true, DisableUnusedImportCheck: true}
-	path := modPath
-	if rel != "" {
-		path += "/" + filepath.ToSlash(rel)
-	}
 	func() {
 		defer func() {
 			if r := recover(); r != nil {
